@@ -53,6 +53,20 @@ import itertools
 from ..css import computed_from_cascaded
 
 
+def _overlap_ratio(width, height, top, bottom, left, right):
+    """Ratio applied to radii whose sums on each side are given.
+
+    See https://www.w3.org/TR/css-backgrounds-3/#corner-overlap
+
+    """
+    return min([1] + [
+        extent / sum_radii
+        for extent, sum_radii in (
+            (width, top), (width, bottom), (height, left), (height, right))
+        if sum_radii > 0
+    ])
+
+
 class Box:
     """Abstract base class for all boxes."""
     # Definitions for the rules generating anonymous table boxes
@@ -216,32 +230,27 @@ class Box:
         brrx, brry = self.border_bottom_right_radius
         blrx, blry = self.border_bottom_left_radius
 
-        tlrx = max(0, tlrx - bl)
-        tlry = max(0, tlry - bt)
-        trrx = max(0, trrx - br)
-        trry = max(0, trry - bt)
-        brrx = max(0, brrx - br)
-        brry = max(0, brry - bb)
-        blrx = max(0, blrx - bl)
-        blry = max(0, blry - bb)
+        # Fix overlapping curves of the border box, inner curves follow them
+        ratio = _overlap_ratio(
+            self.border_width(), self.border_height(),
+            tlrx + trrx, blrx + brrx, tlry + blry, trry + brry)
+        tlrx = max(0, tlrx * ratio - bl)
+        tlry = max(0, tlry * ratio - bt)
+        trrx = max(0, trrx * ratio - br)
+        trry = max(0, trry * ratio - bt)
+        brrx = max(0, brrx * ratio - br)
+        brry = max(0, brry * ratio - bb)
+        blrx = max(0, blrx * ratio - bl)
+        blry = max(0, blry * ratio - bb)
 
         x = self.border_box_x() + bl
         y = self.border_box_y() + bt
         width = self.border_width() - bl - br
         height = self.border_height() - bt - bb
 
-        # Fix overlapping curves
-        # See https://www.w3.org/TR/css-backgrounds-3/#corner-overlap
-        ratio = min([1] + [
-            extent / sum_radii
-            for extent, sum_radii in (
-                (width, tlrx + trrx),
-                (width, blrx + brrx),
-                (height, tlry + blry),
-                (height, trry + brry),
-            )
-            if sum_radii > 0
-        ])
+        # Fix overlapping inner curves
+        ratio = _overlap_ratio(
+            width, height, tlrx + trrx, blrx + brrx, tlry + blry, trry + brry)
         return (
             x, y, width, height,
             (tlrx * ratio, tlry * ratio),
